@@ -684,14 +684,14 @@ func CellBytes(data []byte, pos int, typ byte, metadata uint16, isUnSignedInt bo
 			pos += 4
 		}
 
+		//当txt无正整数，此时需要写入0，表示生成的数整数部分没有值。
+		if !flag {
+			txt.WriteByte('0')
+		}
+
 		// now see if we have a fraction
 		if scale == 0 {
 			return txt.Bytes(), l, nil
-		}
-
-		//当txt无正整数，此时需要在小数点前加上0，表示生成的数整数部分没有值。
-		if !flag {
-			txt.WriteByte('0')
 		}
 
 		txt.WriteByte('.')
